@@ -182,6 +182,8 @@ def judgeOp (j : JSt) (op : String) (rec : String) : JSt × String :=
       let outs := match rf with | "out" :: oh :: _ => unhexLines oh | _ => []
       let v0 : List Violation :=
         if names.contains "orphan" then [⟨"C10", "a timer belonging to a finished or replaced request fired"⟩] else []
+      -- `*` (end-to-end runs with real timers): every live instance's timeout has expired
+      let names := if names.contains "*" then j.t.live.map (fun i => toString i.id) else names
       let t := names.foldl (fun t n => match n.toInt? with | some id => onTimeout t id true | none => t) j.t
       let (t, v) := onOutputs t {} outs
       ({ j with t := t }, fmtViol (v0 ++ v ++ stuck t))
